@@ -91,3 +91,22 @@ CHECKS['C13'] = dict(
           _c13('manifest_mut', 'MODE_MANIFEST', _PARSE_UNITS, 1, 2, ['accepted', 'rejected'], mutate=True, hooks=['const_hash']),
           dict(name='manifest_self_include', harness='c13_inputs.cc', units=_PARSE_UNITS, defines=['MODE_MANIFEST', 'SELF_INCLUDE'], hooks=['const_hash'], budget_overrun_is_violation=True,
                limits=dict(max_steps=6000000, max_depth=1500), validate=False, reach=['rejected'], bounds='a manifest that includes / subninjas itself')])
+
+_C09_UNITS = ['deps_log', 'state', 'graph', 'eval_env', 'debug_flags', 'disk_interface'] + _U
+CHECKS['C09'] = dict(
+    title='the deps log survives torn writes, restarts, damage and compaction',
+    level_text='Bounded symbolic execution of the real DepsLog writer, loader, recovery truncation and recompaction on an in-memory file system: a first session writes records, the file is torn at a symbolic offset (every byte) or damaged by symbolic bytes after a symbolic record boundary, a second session loads, appends and optionally recompacts, a third reloads (and optionally recompacts and reloads). On every path the solver is asked for an offset / tail / continuation for which the loaded dependencies differ from the model "last complete record per output wins", the file is not cut at the last good record, or a later session loses what an earlier one recorded.',
+    level_note='Trusted: IR generation, interpreter and VFS model (cross-checked natively on the real file system per run), z3, the 15-line expectation model. Bounds: first session = 1..4 records of three representative sequences covering every padding case, overwrites, empty lists and a dead output (plus a job with 1..2 fully menu-symbolic records); tear at every offset; tails of 1..8 arbitrary bytes at every record boundary; one appended record; recompaction in session 2 or 3. Longer histories and records near the size limit are outside the claim.',
+    assumptions=['one ninja process writes the log at a time', 'bounds as stated per job', 'a write torn at any byte is modelled as the file truncated at that byte (records are appended and flushed one at a time)'],
+    jobs=[dict(name='tear', harness='c09_depslog.cc', units=_C09_UNITS, defines=['DAMAGE_TEAR', 'CONCRETE_SEQ'], reach=['tear-none', 'tear-some', 'recompact-2', 'recompact-3', 'done'],
+               quick=dict(defines=['VERIF_SEQS=2', 'VERIF_MAXREC=3'], bounds='2 sequences x 1..3 records, torn at every byte offset 0..size, 4 choices of appended record, recompaction never / in session 2 / in session 3'),
+               thorough=dict(defines=['VERIF_SEQS=3', 'VERIF_MAXREC=4'], bounds='3 sequences x 1..4 records, torn at every byte offset, 4 choices of appended record, recompaction never / in session 2 / in session 3', limits=dict(time=3000, max_paths=3000000))),
+          dict(name='tail', harness='c09_depslog.cc', units=_C09_UNITS, defines=['DAMAGE_TAIL', 'CONCRETE_SEQ'], reach=['tail', 'done'],
+               quick=dict(defines=['VERIF_TAIL=4', 'VERIF_SEQS=2', 'VERIF_MAXREC=3'], bounds='2 sequences x 1..3 records, cut at every record boundary then 1..4 fully symbolic bytes'),
+               thorough=dict(defines=['VERIF_TAIL=8'], bounds='cut at every record boundary then 1..8 fully symbolic bytes', limits=dict(time=3000, max_paths=3000000))),
+          dict(name='badrec', harness='c09_depslog.cc', units=_C09_UNITS, defines=['DAMAGE_BADREC', 'CONCRETE_SEQ'], reach=['badrec', 'done'],
+               quick=dict(defines=['VERIF_SEQS=1', 'VERIF_MAXREC=2'], bounds='1 sequence x 1..2 records, cut at every record boundary, then one well-framed record: kind x size in {4..20} x words in {0,1,2,5,9,-1,-2,INT_MAX,"a"}; later sessions must load cleanly and keep what they record'),
+               thorough=dict(defines=['VERIF_SEQS=3', 'VERIF_MAXREC=4'], bounds='3 sequences x 1..4 records, same damage', limits=dict(time=3000, max_paths=3000000))),
+          dict(name='tear_sym', harness='c09_depslog.cc', units=_C09_UNITS, defines=['DAMAGE_TEAR', 'SMALL_MENU'], reach=['tear-some', 'done'], thorough_only=True,
+               quick=dict(defines=['VERIF_RECORDS=1'], bounds='1 record with symbolic output (4), mtime (3), dependency list (4 menus); torn at every byte', limits=dict(time=1500)),
+               thorough=dict(defines=['VERIF_RECORDS=2'], bounds='1..2 such records', limits=dict(time=3000, max_paths=3000000)))])
